@@ -12,9 +12,10 @@ EXPLANATION = (
     "stores id `a-b` into bench_options.a_b (counter ids construct the counter type of the same name); each Divan "
     "builder method writes the field of its own name from its own parameter. R15.4 thread-count normalisation "
     "(0 -> available parallelism, sort, dedup, empty -> [1]). R15.5 the RunIgnored decision table and its CLI/builder "
-    "wiring. R15.6 Bencher::counter replaces only the counter of its own kind.")
+    "wiring. R15.6 Bencher::counter replaces only the counter of its own kind."
+    ' R15.3 also: whether a bench_options field is stored by config_with_args depends on the option being present, never on the value given. R15.7 attribute level (engine E3): every option written in an attribute, and #[ignore] in all its forms, is emitted into the BenchOptions field of the same name with the value as written and nothing else is emitted.')
 NOT_DECIDED = ["clap's own precedence of flag over environment variable (trusted library)",
-               "attribute -> BenchOptions field mapping emitted by the macro (C12/R12.3)"]
+               "programs outside the analysed macro corpus (R15.7 decides the attribute -> field mapping for the corpus and the repository's own programs)"]
 TRUSTED = ["clap: a flag given on the command line takes precedence over its .env() fallback"]
 
 
@@ -664,6 +665,29 @@ def r15_6(ctx, prog, crate):
         for x in bc:
             cs = [c.callee.rsplit("::", 1)[-1] for c in x.live_calls() if "CounterCollection::" in c.callee]
             ctx.check(cs == ["set_counter"], "R15.6", ["Bencher::counter", "only-set_counter"], "Bencher::counter calls %s" % cs, x.where(0))
+
+
+MACRO_OPTIONS = {"option", "options-emitted", "ignore-attribute", "no-unwritten-options", "no-options"}
+
+
+def run_extra(ctx):
+    """R15.7 the attribute level: every option written in #[divan::bench(..)] / #[divan::bench_group(..)] (and the built-in
+    #[ignore] in all its forms) is emitted into the BenchOptions field of the same name with the value as written, and
+    nothing that was not written is emitted - analysed on the macro expansions of the corpus and the repository's own
+    attributed programs (engine E3, rules shared with C12/R12.3)."""
+    from . import C12
+    from .common import ExpansionView
+    C12.ensure_tool()
+    ctx.cfg = "expand"
+    px = ExpansionView(ctx, "R15.7", MACRO_OPTIONS)
+    n = 0
+    for t in C12.targets(ctx.tier):
+        exp = C12.expand_target(t)
+        items = C12.tool("items", t["src"])["items"]
+        regs = C12.tool("regs", exp)
+        n += len([i for i in items if [o for o in i["options"] if o["key"] not in ("types", "consts", "args", "name", "crate")] or i["ignore_attr"]])
+        C12.check_program(px, t, items, regs)
+    ctx.anchor("R15.7", "attributed items that write options", n, 25)
 
 
 def run(ctx, prog, crate):
